@@ -62,7 +62,7 @@ int backup_copy_file(const char *filename, const vector<UINT8> &data)
 
       if (fgets(buffer, sizeof(buffer), thefile) != nullptr)
       {
-         for (int i = 0; buffer[i] != 0; i++)
+         for (int i = 0; buffer[i] != 0 && i < static_cast<int>(sizeof(md5_str_in)) - 1; i++)
          {
             if (unc_isxdigit(buffer[i]))
             {
